@@ -162,7 +162,7 @@ let () =
                 if not (changes_ok f prev cur gcs) then begin
                   let why =
                     if not (flip_free f prev cur) then "language-flip: the language verdict of a path flips across its modification, which filterDiffs judges on one side only; "
-                    else if not (empty_name_inert f) then "empty-name-match: the name filter accepts the empty name of the missing side; "
+                    else if not (empty_name_inert f) then "vendor-empty-name: enry.IsVendor accepts the empty name; "
                     else "" in
                   propfail id (here ^ " changes-apply: " ^ why ^ "applying the reported changes to the filtered previous file set does not give the filtered current file set: " ^ show_changes gcs)
                 end
@@ -172,7 +172,7 @@ let () =
               let want = List.map (fun e -> { c_from = None; c_to = Some e }) (restrict f (List.filter is_file cur)) in
               let srt l = List.sort compare (List.map key_of_change l) in
               if srt want <> srt gcs then begin
-                let why = if not (empty_name_inert f) then "empty-name-match: the name filter accepts the empty name of the missing side; " else "" in
+                let why = if not (empty_name_inert f) then "vendor-empty-name: enry.IsVendor accepts the empty name; " else "" in
                 propfail id (here ^ " first-commit: " ^ why ^ "the first commit of the branch does not report exactly the passing files as additions: " ^ show_changes gcs)
               end
             end;
